@@ -18,6 +18,7 @@ from .coordinates_c13 import SymProjection, _concrete_projection, _coords, _rand
 from .neighbors_c15 import _grid_axes, _sym_grid
 
 import verde
+from pyvc import known
 
 MK = "verde.mask"
 
@@ -228,6 +229,12 @@ def project_grid_case(kind, method, antialias, seed, with_holes, extra):
     proj = {"affine": lambda e, n: (2.0 * np.asarray(e) + 10.0, 3.0 * np.asarray(n) - 1.0), "monotone": lambda e, n: (np.asarray(e) ** 3 / 10.0 + np.asarray(e), np.exp(np.asarray(n) / 8.0))}[kind]
     with warnings.catch_warnings():
         warnings.simplefilter("ignore")
+        extra = dict(extra)
+        if isinstance(extra.get("region"), str):
+            pe, pn = proj(E, N)
+            w, e_, s_, n_ = float(pe.min()), float(pe.max()), float(pn.min()), float(pn.max())
+            f = 0.23 if extra["region"] == "inner" else -0.31  # shrink / grow the bounding box, asymmetrically
+            extra["region"] = (w + f * (e_ - w), e_ - 0.5 * f * (e_ - w), s_ + 0.7 * f * (n_ - s_), n_ - f * (n_ - s_))
         try:
             out = verde.project_grid(grid, proj, method=method, antialias=antialias, **extra)
             err = None
@@ -250,6 +257,8 @@ class ProjectGridCase(Contract):
                 for antialias in (False, True):
                     for _ in range(2 if tier == "thorough" else 1):
                         yield (kind, method, antialias, rng.randint(0, 9999), rng.random() < 0.4, rng.choice([{}, {"shape": (7, 9)}, {"spacing": 0.9}])), {}
+                    # a requested region that differs from the bounding box of the projected data (with / without a shape)
+                    yield (kind, method, antialias, rng.randint(0, 9999), False, rng.choice([{"region": "inner"}, {"region": "outer"}, {"region": "inner", "shape": (6, 8)}])), {}
                     # holes that change the hull of the data (border holes), where an extrapolating method would fill the gap
                     yield (kind, method, antialias, rng.randint(0, 9999), rng.choice(["corner", "edge", "staircase"]), {}), {}
         yield ("affine", "bogus", True, 1, False, {}), {}
@@ -268,6 +277,11 @@ class ProjectGridCase(Contract):
         ok = ~np.isnan(grid.values)
         pe, pn = proj(E[ok], N[ok])
         region = (pe.min(), pe.max(), pn.min(), pn.max())
+        if isinstance(a.extra.get("region"), str):
+            fe, fn = proj(E, N)
+            w, e_, s_, n_ = float(fe.min()), float(fe.max()), float(fn.min()), float(fn.max())
+            f = 0.23 if a.extra["region"] == "inner" else -0.31
+            region = (w + f * (e_ - w), e_ - 0.5 * f * (e_ - w), s_ + 0.7 * f * (n_ - s_), n_ - f * (n_ - s_))
         oe, on = out.coords["easting"].values, out.coords["northing"].values
         res["regular_grid_of_the_projected_region"] = bool(np.isclose(oe[0], region[0]) and np.isclose(on[0], region[2]) and np.allclose(np.diff(oe), np.diff(oe)[0]) and np.allclose(np.diff(on), np.diff(on)[0]) and oe[-1] <= region[1] + 1e-9 * abs(region[1]) + 1e-9 and on[-1] <= region[3] + 1e-9 * abs(region[3]) + 1e-9)
         if "shape" in a.extra:
@@ -278,6 +292,12 @@ class ProjectGridCase(Contract):
         hull = _convex_hull([(Fraction(float(x)), Fraction(float(y))) for x, y in zip(pe, pn)])
         OE, ON = np.meshgrid(oe, on)
         good_out, good_in = True, True
+        # known finding F9 (carve-out = exactly that input class): antialias + linear/cubic + an output spacing coarser
+        # than the sampling of the projected data -> the block means' hull is smaller than the data hull
+        coarse = False
+        if known.active("F9") and a.antialias and a.method in ("linear", "cubic") and len(oe) > 1 and len(on) > 1:
+            de, dn = np.diff(np.unique(np.round(pe, 9))), np.diff(np.unique(np.round(pn, 9)))
+            coarse = bool((de.size and (oe[1] - oe[0]) > de.min() * (1 + 1e-9)) or (dn.size and (on[1] - on[0]) > dn.min() * (1 + 1e-9)))
         for x, y, v in zip(OE.ravel(), ON.ravel(), np.asarray(out.values).ravel()):
             side = _point_in_hull(hull, (Fraction(float(x)), Fraction(float(y))))
             margin = _hull_margin(hull, (float(x), float(y)))
@@ -285,7 +305,7 @@ class ProjectGridCase(Contract):
                 continue
             if side < 0 and not np.isnan(v):
                 good_out = False
-            if side > 0 and np.isnan(v) and not a.with_holes and a.method != "cubic":
+            if side > 0 and np.isnan(v) and not a.with_holes and a.method != "cubic" and not coarse:
                 good_in = False
         res["nan_outside_the_hull_of_the_projected_data"] = good_out
         res["finite_inside_the_hull"] = good_in
@@ -443,6 +463,7 @@ class ProjectGrid(Contract):
             for antialias in (True, False):
                 out.append({"method": method, "antialias": antialias, "name": "topo"})
         out += [{"method": "linear", "antialias": True, "name": None}, {"method": "linear", "antialias": False, "name": "topo", "shape": True}, {"method": "nearest", "antialias": True, "name": "topo", "spacing": True, "region": True}]
+        out += [{"method": "linear", "antialias": True, "name": "topo", "region": True}, {"method": "cubic", "antialias": False, "name": "topo", "region": True, "shape": True}]
         return out
 
     def setup(self, B, cfg):
@@ -515,6 +536,21 @@ class ProjectGrid(Contract):
         else:
             out["block_mean_over_the_data_region_first_iff_antialias"] = len(steps) == 1
         out["gridded_on_the_requested_or_data_region_with_the_inputs_name"] = ga.self is chain and ga.region is region and list(ga.data_names) == [name] and (ga.spacing is a.kwargs["spacing"] if "spacing" in a.kwargs else ga.spacing is not None)
+        if "spacing" not in a.kwargs:
+            # "...of the projected region with the input's shape (or the requested region/shape)": the default spacing
+            # is the one that puts the requested (else the input's) shape on the region that is GRIDDED
+            s2s = c.ghost.get("verde.coordinates:shape_to_spacing", [])
+            want_shape = a.kwargs.get("shape", (nn, ne))
+            ok_sp = False
+            for sa, sr in s2s:
+                if sr is ga.spacing or (isinstance(sr, tuple) and isinstance(ga.spacing, tuple) and len(sr) == len(ga.spacing) and all(x is y for x, y in zip(sr, ga.spacing))):
+                    shp = tuple(sa.shape)
+                    ok_sp = sa.region is region and len(shp) == 2 and and_(shp[0] == want_shape[0], shp[1] == want_shape[1]) is not False
+                    if ok_sp:
+                        ok_sp = and_(shp[0] == want_shape[0], shp[1] == want_shape[1])
+            out["default_spacing_puts_the_requested_or_input_shape_on_the_gridded_region"] = ok_sp
+            if a.antialias and len(steps) == 2 and isinstance(steps[0][1], verde.BlockReduce):
+                out["block_mean_with_the_output_spacing"] = steps[0][1].spacing is ga.spacing
         out["hull_mask_over_the_projected_DATA_points_applied_to_the_gridded_result"] = ma.data_coordinates is fa.coordinates and ma.grid is gridded and ma.coordinates is None
         out["returns_the_masked_variable_with_the_inputs_name"] = r is masked[name]
         return out
